@@ -22,6 +22,8 @@ type seed struct {
 }
 
 var seeds = []seed{
+	{"64-bit detach forgets the buckets' own containers", "A5", "roaring64/roaringarray64.go", "\t\t// a bucket, owned or just cloned, may itself hold containers that point into a buffer (FromUnsafeBytes)\n\t\tra.containers[i].CloneCopyOnWriteContainers()\n", "", "inner detach"},
+	{"64-bit detach skips the buckets it has just cloned", "A5", "roaring64/roaringarray64.go", "\t\t\tra.needCopyOnWrite[i] = false\n\t\t}\n\t\t// a bucket, owned", "\t\t\tra.needCopyOnWrite[i] = false\n\t\t\tcontinue\n\t\t}\n\t\t// a bucket, owned", "inner detach"},
 	{"a second portable decoder adopts a run list verbatim", "L8", "roaringarray.go", "func (ra *roaringArray) hasRunCompression() bool {\n", "func readRunChunk(stream internal.ByteInput, nr int) (container, error) {\n\tbuf, err := stream.Next(nr * 4)\n\tif err != nil {\n\t\treturn nil, err\n\t}\n\treturn &runContainer16{iv: byteSliceAsInterval16Slice(buf)}, nil\n}\n\nfunc (ra *roaringArray) hasRunCompression() bool {\n", "roaring.readRunChunk"},
 	{"64-bit ClearValues empties the existence bitmap before the planes", "F10.bsi", "roaring64/bsi64.go", "\tfor i := range b.bA {\n\t\tb.bA[i].AndNot(foundSet)\n\t}\n\t// last: foundSet may be the existence bitmap itself\n\tb.eBM.AndNot(foundSet)\n", "\tb.eBM.AndNot(foundSet)\n\tfor i := range b.bA {\n\t\tb.bA[i].AndNot(foundSet)\n\t}\n", "(*roaring64.BSI).ClearValues"},
 	{"32-bit ClearValues clears the existence bitmap in a goroutine of its own", "F10.bsi", "BitSliceIndexing/bsi.go", "\tvar wg sync.WaitGroup\n\tfor i := 0; i < b.BitCount(); i++ {\n\t\twg.Add(1)\n\t\tgo func(j int) {\n\t\t\tdefer wg.Done()\n\t\t\tb.bA[j].AndNot(foundSet)\n\t\t}(i)\n\t}\n\twg.Wait()\n\t// last, and after the workers: foundSet may be the existence bitmap itself\n\tb.eBM.AndNot(foundSet)\n", "\tvar wg sync.WaitGroup\n\twg.Add(1)\n\tgo func() {\n\t\tdefer wg.Done()\n\t\tb.eBM.AndNot(foundSet)\n\t}()\n\tfor i := 0; i < b.BitCount(); i++ {\n\t\twg.Add(1)\n\t\tgo func(j int) {\n\t\t\tdefer wg.Done()\n\t\t\tb.bA[j].AndNot(foundSet)\n\t\t}(i)\n\t}\n\twg.Wait()\n", "(*BitSliceIndexing.BSI).ClearValues"},
